@@ -5,7 +5,7 @@ Property theorems only (model: Rpft/Schema, RowParse, RowUnparse, RowSpec; helpe
 Rpft/Lemmas/Row.lean, Codec.lean).  Strings, integers, list lengths and the number of
 fields are unbounded in every theorem.
 -/
-import Rpft.Lemmas.Row
+import Rpft.Lemmas.RowSub
 import Rpft.FlowSchema
 import Rpft.Gen.Tables
 set_option linter.unusedSimpArgs false
@@ -94,6 +94,84 @@ theorem parse_unparse_flat_partial (fs : List Field) (lay : Layout) (v : Val)
         exact hfam p.1 hmem
       exact fieldRT_basic (d := p.1.2.2) (hsimple p.1 hmem) (fieldLookup_mem fs hnd p.1 hmem) he hb h
 
+/-- family 2: every field is of a basic type, a list of strings, or a sub-record (without
+header remaps) of basic-typed fields with distinct simple names -/
+def famTy : Ty → Bool
+  | .list .str => true
+  | .model sfs [] [] => subFamily sfs
+  | t => isBasicTy t
+
+def family (fs : List Field) : Bool := fs.all fun f => famTy f.2.1
+
+theorem fieldRT_fam {lay : Layout} {fs : List Field} {n : Str} {ty : Ty} {d : Option Val} {v : Val}
+    (hn : simpleName n = true) (hf : fieldLookup n fs = some (n, ty, d)) (he : lay.excluded = [])
+    (hfam : famTy ty = true) (hfo : fieldOk false ty v = true) (hr : reprOk false ty v = true) :
+    FieldRT lay fs n ty v := by
+  cases ty with
+  | str => exact fieldRT_basic hn hf he rfl hr
+  | int => exact fieldRT_basic hn hf he rfl hr
+  | float => exact fieldRT_basic hn hf he rfl hr
+  | bool => exact fieldRT_basic hn hf he rfl hr
+  | anyList => simp [famTy, isBasicTy] at hfam
+  | list t =>
+    cases t <;> simp [famTy, isBasicTy] at hfam
+    cases v <;> simp [reprOk] at hr
+    case str.list xs =>
+      obtain ⟨ss, rfl, hss⟩ := list_str_repr xs (List.all_eq_true.mpr hr)
+      have hne : ss ≠ [] := by
+        intro e; subst e; simp [fieldOk] at hfo
+      cases hm : matchesHeaders ('.' :: n) lay.targets with
+      | true => exact fieldRT_listStr_packed hn hf he hm ss hne hss
+      | false => exact fieldRT_listStr_spread hn hf he hm ss hne hss
+  | model sfs h2f f2h =>
+    cases h2f <;> cases f2h <;> simp [famTy, isBasicTy] at hfam
+    cases v with
+    | model skvs =>
+      obtain ⟨D⟩ := subData_of_repr hfam hr hfo
+      cases hm : matchesHeaders ('.' :: n) lay.targets with
+      | true => exact fieldRT_sub_packed hn hf he hm D
+      | false => exact fieldRT_sub_spread hn hf he hm D
+    | _ => simp [reprOk] at hr
+
+/-- **Records of basic fields, lists of strings and one level of sub-records, in every
+layout**: each list / sub-record field independently spread over one column per leaf
+(`f.1, f.2, …` / `f.a, f.b, …`) or packed into a single cell (`x|y|z` / `a;va|b;vb`),
+as selected by ANY target-header set; any number of fields, unbounded strings, integers
+and list lengths; default-valued fields elided and restored. -/
+theorem parse_unparse_partial (fs : List Field) (lay : Layout) (v : Val)
+    (hwf : wfFieldNames fs = true) (hfam : family fs = true)
+    (hr : Representable (plainTop fs) v = true)
+    (ha : Admissible { top := plainTop fs } lay = true) :
+    RoundTrip { top := plainTop fs } lay v := by
+  cases v <;> simp [Representable] at hr
+  case model kvs =>
+    obtain ⟨hnames, hrf⟩ := hr
+    simp only [wfFieldNames, Bool.and_eq_true, List.all_eq_true, decide_eq_true_eq] at hwf
+    obtain ⟨hsimple, hnd⟩ := hwf
+    have he : lay.excluded = [] := by
+      simp only [Admissible, Bool.and_eq_true, List.isEmpty_iff] at ha
+      exact ha.1
+    apply parse_unparse_of_fields lay fs kvs hnames hnd
+    intro p hp hdef
+    have hmem : p.1 ∈ fs := (List.of_mem_zip hp).1
+    obtain ⟨x, hx, hor⟩ := reprFields_mem false kvs fs hrf p.1 hmem
+    have hx' := alookup_zip fs kvs hnames hnd p hp
+    rw [hx'] at hx
+    cases hx
+    rcases hor with h | ⟨hfo, h⟩
+    · rw [h] at hdef; cases hdef
+    · have hb : famTy p.1.2.1 = true := by
+        simp only [family, List.all_eq_true] at hfam
+        exact hfam p.1 hmem
+      exact fieldRT_fam (d := p.1.2.2) (hsimple p.1 hmem) (fieldLookup_mem fs hnd p.1 hmem) he hb hfo h
+
+/-- flat records are the special case -/
+theorem flat_in_family (fs : List Field) (h : flatFamily fs = true) : family fs = true := by
+  simp only [flatFamily, family, List.all_eq_true] at h ⊢
+  intro f hf
+  have := h f hf
+  cases hty : f.2.1 <;> simp [hty, isBasicTy] at this <;> simp [famTy, isBasicTy]
+
 /-! #### non-vacuity and negative witnesses (flat records) -/
 
 def exFlat : List Field :=
@@ -130,6 +208,95 @@ theorem needs_template_free :
 /-- nothing may be excluded: an excluded non-default field is lost -/
 theorem needs_nothing_excluded :
     roundTrips { top := plainTop exFlat } { excluded := ["a".toList] } exFlatVal = false := by
+  decide +kernel
+
+/-! #### non-vacuity and negative witnesses (lists, sub-records, layouts) -/
+
+def exSub : List Field :=
+  [("p".toList, .str, some (.str [])), ("q".toList, .int, some (.int 0)),
+   ("w".toList, .bool, some (.bool false)), ("z".toList, .str, some (.str "zz".toList))]
+def exSubDefault : Val :=
+  .model [("p".toList, .str []), ("q".toList, .int 0), ("w".toList, .bool false),
+    ("z".toList, .str "zz".toList)]
+
+def exFam : List Field :=
+  [("a".toList, .str, some (.str [])), ("xs".toList, .list .str, some (.list [])),
+   ("s".toList, plainTop exSub, some exSubDefault), ("c".toList, .bool, some (.bool true)),
+   ("ys".toList, .list .str, none)]
+
+def exFamVal : Val :=
+  .model [("a".toList, .str "x;y".toList),
+    ("xs".toList, .list [.str "a|b".toList, .str "\\;".toList, .str "q".toList]),
+    ("s".toList, .model [("p".toList, .str "p;|q".toList), ("q".toList, .int (-7)),
+      ("w".toList, .bool false), ("z".toList, .str "z".toList)]),
+    ("c".toList, .bool true), ("ys".toList, .list [.str "one".toList])]
+
+def exLayouts : List Layout :=
+  [{}, { targets := ["xs".toList] }, { targets := ["s".toList] },
+   { targets := ["xs".toList, "s".toList, "ys".toList] }, { targets := ["*".toList] }]
+
+/-- the hypotheses of `parse_unparse_partial` hold for a non-trivial value in five layouts
+(all spread, only the list packed, only the sub-record packed, everything packed, `*`) -/
+example : wfFieldNames exFam = true ∧ family exFam = true ∧
+    Representable (plainTop exFam) exFamVal = true ∧
+    exLayouts.all (fun lay => Admissible { top := plainTop exFam } lay) = true := by
+  decide +kernel
+
+example : exLayouts.all (fun lay => roundTrips { top := plainTop exFam } lay exFamVal) = true := by
+  decide +kernel
+
+def exFamWith (xs : List Val) (z : Str) : Val :=
+  .model [("a".toList, .str []), ("xs".toList, .list xs),
+    ("s".toList, .model [("p".toList, .str []), ("q".toList, .int 0), ("w".toList, .bool false),
+      ("z".toList, .str z)]),
+    ("c".toList, .bool true), ("ys".toList, .list [.str "y".toList])]
+
+/-- "no blank element inside a list": a packed list loses a blank last element -/
+theorem needs_no_blank_in_list :
+    roundTrips { top := plainTop exFam } { targets := ["xs".toList] }
+      (exFamWith [.str "a".toList, .str []] "zz".toList) = false := by decide +kernel
+
+/-- a blank, non-default string inside a packed sub-record is the blank last element of its
+key/value pair: it is lost, and the key is then read as a positional value -/
+theorem needs_no_blank_in_subrecord :
+    roundTrips { top := plainTop exFam } { targets := ["s".toList] }
+      (exFamWith [] []) = false := by decide +kernel
+
+/-- an empty list must be the field's default: it leaves no cell, so a required list field
+is reported missing -/
+theorem needs_nonempty_or_default :
+    roundTrips { top := plainTop exFam } {}
+      (.model [("a".toList, .str []), ("xs".toList, .list []), ("s".toList, exSubDefault),
+        ("c".toList, .bool true), ("ys".toList, .list [])]) = false := by decide +kernel
+
+/-- an all-default record inside a list unparses to nothing (spread) -/
+theorem needs_no_all_default_record_in_list :
+    roundTrips { top := plainTop [("items".toList, .list (plainTop exSub), some (.list []))] } {}
+      (.model [("items".toList, .list [exSubDefault, .model [("p".toList, .str "x".toList),
+        ("q".toList, .int 0), ("w".toList, .bool false), ("z".toList, .str "zz".toList)]])]) = false := by
+  decide +kernel
+
+def exDeep : List Field :=
+  [("s".toList, plainTop [("xs".toList, .list .str, some (.list []))],
+    some (.model [("xs".toList, .list [])]))]
+
+/-- `Admissible`: a record holding a list needs three levels when packed — the error branch
+of `join_from_lists` -/
+theorem needs_admissible_depth :
+    Admissible { top := plainTop exDeep } { targets := ["s".toList] } = false ∧
+    roundTrips { top := plainTop exDeep } { targets := ["s".toList] }
+      (.model [("s".toList, .model [("xs".toList, .list [.str "a".toList])])]) = false ∧
+    roundTrips { top := plainTop exDeep } {}
+      (.model [("s".toList, .model [("xs".toList, .list [.str "a".toList])])]) = true := by
+  decide +kernel
+
+/-- finding F-C04-d: an untyped list holding a list, spread over `u.1.1, u.1.2`, cannot be
+parsed back (assertion in `find_entry`); packed it survives -/
+theorem spread_untyped_list_of_lists_fails :
+    roundTrips { top := plainTop [("u".toList, .anyList, some (.any []))] } {}
+      (.model [("u".toList, .any [.list [.atom "k".toList, .atom "v".toList]])]) = false ∧
+    roundTrips { top := plainTop [("u".toList, .anyList, some (.any []))] } { targets := ["u".toList] }
+      (.model [("u".toList, .any [.list [.atom "k".toList, .atom "v".toList]])]) = true := by
   decide +kernel
 
 end Rpft.Props.C07
